@@ -213,7 +213,7 @@ def lexer_check(ctx, gen_opts, ndefs, ninputs, projs, ctors=(0,), clone=False, n
     log("%s: %d definitions (%d corpus), %d usable (%d model-rejected, %d not well-formed); model %.1fs, rustc+run %.1fs"
         % (prop, len(cases), ncorpus, len(usable), n_panic, n_nonwf, t_model, t_impl))
     stages = STAGES.get(prop, set())
-    ncert = 0
+    ncert = nisook = nisoren = 0
     if prop in CERT_PROPS:
         t0 = time.time()
         lexcheck.run_certificates(usable)
@@ -222,14 +222,17 @@ def lexer_check(ctx, gen_opts, ndefs, ninputs, projs, ctors=(0,), clone=False, n
                 continue
             for cert in c.certs:
                 ncert += 1
+                if cert["kind"] == "ISO" and cert.get("progiso") == "1":
+                    nisook += 1
+                    nisoren += cert.get("identity") == "0"
                 bad = [k for k, v in cert.items() if k in CERT_PROPS[prop] and v == "0"]
                 if cert["kind"] == "ERROR" or bad:
                     c.cert_problem = "certificate %s fails on the implementation's dumped automaton: %r" % (cert["kind"], cert)
         log("%s: %d certificates evaluated on dumped automata (%.1fs)" % (prop, ncert, time.time() - t0))
         ctx.coverage.setdefault("distribution", {})["certificates_checked"] = ncert
     evals, nontrivial, disagreements = 0, set(), 0
-    dist = {"inputs": 0, "input_len_sum": 0, "runs_with_error": 0, "runs_with_rewind_possible": 0,
-            "compile_errors": 0, "artifact_diffs": 0}
+    dist = {"inputs": 0, "input_len_sum": 0, "runs_with_error": 0, "compile_errors": 0, "artifact_diffs": 0,
+            "programs_verified_isomorphic": nisook, "of_which_renumbered": nisoren}
     for c in usable:
         if c.compile_error is not None:
             dist["compile_errors"] += 1
